@@ -3,6 +3,7 @@ package dns
 func init() {
 	verifRegister("harness_C17_dns_equal_uf", harness_C17_dns_equal_uf)
 	verifRegister("harness_C17_dns_alphabet", harness_C17_dns_alphabet)
+	verifRegister("harness_C17_dns_labels", harness_C17_dns_labels)
 }
 
 type ufEntry struct{ arg, key string }
@@ -57,6 +58,59 @@ var dnsAlphabet = [][]string{
 	{"тест.example.org", "xn--e1aybc.example.org", "ТЕСТ.example.org", "XN--E1AYBC.EXAMPLE.ORG", "Xn--E1aybc.example.org"},
 	{"bücher.example", "xn--bcher-kva.example", "bücher.example", "BÜCHER.example"},
 	{"faß.example"},
+}
+
+// Label-wise composition: every position of a two- or three-label domain takes a
+// label class, the two spellings pick their variant of that class independently
+// (so A-labels, U-labels and case variants occur in every position).
+var dnsLabels = [][]string{
+	{"example", "EXAMPLE", "Example"},
+	{"тест", "xn--e1aybc", "ТЕСТ", "XN--E1AYBC"},
+	{"bücher", "xn--bcher-kva", "bu\u0308cher", "BÜCHER"},
+	{"org", "ORG"},
+}
+
+func harness_C17_dns_labels() {
+	n := verifParam("labels", 2)
+	a, b := "", ""
+	for i := 0; i < n; i++ {
+		g := nondetChoice("class", len(dnsLabels))
+		grp := dnsLabels[g]
+		if i > 0 {
+			a += "."
+			b += "."
+		}
+		a += grp[nondetChoice("i", len(grp))]
+		b += grp[nondetChoice("j", len(grp))]
+	}
+	if nondetBool("dotA") {
+		a += "."
+	}
+	ka, err := ForLookup(a)
+	if err != nil {
+		verifFail("C17.dns-forlookup-error")
+	}
+	kka, err := ForLookup(ka)
+	if err != nil || kka != ka {
+		verifFail("C17.dns-forlookup-idempotent")
+	}
+	kb, _ := ForLookup(b)
+	if ka != kb {
+		verifLog("a", a, "b", b, "ka", ka, "kb", kb)
+		verifFail("C17.dns-variants-one-key")
+	}
+	if !Equal(a, b) {
+		verifFail("C17.dns-variants-equal")
+	}
+	as, err := SelectIDNA(false, ka)
+	if err != nil {
+		verifFail("C17.dns-toascii-error")
+	}
+	un, err := SelectIDNA(true, as)
+	if err != nil || un != ka {
+		verifFail("C17.dns-ascii-unicode-roundtrip")
+	}
+	verifCover("C17.dns-labels-end")
 }
 
 func harness_C17_dns_alphabet() {
